@@ -23,7 +23,7 @@ from peers import pki_a, tls_a
 ID = "C15"
 LEVEL = "exploration"
 ENGINE = "simkit/proxy-world"
-QUICK_RUNS = 5000
+QUICK_RUNS = 12000
 QUICK_BUDGET_S = 150
 THOROUGH_BUDGET_S = 900
 CHUNK = 50
@@ -59,7 +59,10 @@ ASSUMPTIONS = ["the identity to verify is the SNI mitmproxy sends to the origin,
                "lead to a trusted CA / is not currently valid",
                "'the flow has an error outcome' = an error (HTTP) or tcp_error (TCP) hook fired for the client's flow and "
                "the client got a non-2xx answer or a close instead of origin data",
-               "after a proxy crash (first crash only) the error-outcome part is not evaluated: the crash is the report"]
+               "after a proxy crash on a connection whose upstream chain was rejected the error-outcome part is not "
+               "evaluated: the crash is the report (crashes on other connections are not this property's business)",
+               "the first TCP segment of a ClientHello is at least 3 bytes long (documented assumption of "
+               "net.tls.starts_like_tls_record: shorter first segments are not taken for TLS)"]
 EXPECTED_PROBES = ["verdict_good", "verdict_bad", "rejected_name_mismatch", "rejected_unknown_ca", "rejected_expired",
                    "rejected_future", "rejected_self_signed", "rejected_intermediate_missing", "rejected_issuer_not_a_ca",
                    "rejected_intermediate_expired", "insecure_bad_accepted", "good_accepted", "trust_file", "trust_dir",
